@@ -210,6 +210,13 @@ class Report:
         with open(tmp, "w") as f:
             json.dump(ev, f, indent=1, sort_keys=True)
         os.replace(tmp, os.path.join(EVID_DIR, f"{self.prop}.json"))
+        if self.tier == "thorough":
+            # evidence/<id>.json is overwritten by the next quick run; the record of the last
+            # thorough run is kept next to it
+            keep = EVID_DIR.rstrip("/") + "_thorough"
+            os.makedirs(keep, exist_ok=True)
+            with open(os.path.join(keep, f"{self.prop}.json"), "w") as f:
+                json.dump(ev, f, indent=1, sort_keys=True)
 
 
 def _size(rec):
